@@ -242,21 +242,14 @@ impl<R: Read, TSpec> TagIterator<R, TSpec>
             return Ok(true)
         }
 
-        if self.buffer_offset.is_none() {
-            if !self.private_read(0)? {
-                return Ok(false);
-            }
-            self.buffer_offset = Some(0);
+        while self.internal_buffer_position + length > self.buffered_byte_length {
+            self.buffer.copy_within(self.internal_buffer_position..self.buffered_byte_length, 0);
+            self.buffered_byte_length -= self.internal_buffer_position;
+            self.buffer_offset = Some(self.current_offset());
             self.internal_buffer_position = 0;
-        } else {
-            while self.internal_buffer_position + length > self.buffered_byte_length {
-                self.buffer.copy_within(self.internal_buffer_position..self.buffered_byte_length, 0);
-                self.buffered_byte_length -= self.internal_buffer_position;
-                self.buffer_offset = Some(self.current_offset());
-                self.internal_buffer_position = 0;
-                if !self.private_read(self.buffered_byte_length)? {
-                    return Ok(false);
-                }
+            self.ensure_capacity(length);
+            if !self.private_read(self.buffered_byte_length)? {
+                return Ok(false);
             }
         }
         Ok(true)
@@ -265,14 +258,18 @@ impl<R: Read, TSpec> TagIterator<R, TSpec>
     #[inline(always)]
     fn peek_tag_id(&mut self) -> Result<(u64, usize), TagIteratorError> {
         self.ensure_data_read(8)?;
-        if self.buffer[self.internal_buffer_position] == 0 {
+        let available = &self.buffer[self.internal_buffer_position..self.buffered_byte_length];
+        if matches!(available.first(), Some(0)) {
             return Ok((0, 1));
         }
-        let length = 8 - self.buffer[self.internal_buffer_position].ilog2() as usize;
-        let mut val = self.buffer[self.internal_buffer_position] as u64;
-        for i in 1..length {
+        let length = available.first().map_or(1, |first| 8 - first.ilog2() as usize);
+        if length > available.len() {
+            return Err(TagIteratorError::UnexpectedEOF { tag_start: self.current_offset(), tag_id: None, tag_size: None, partial_data: None });
+        }
+        let mut val = available[0] as u64;
+        for item in &available[1..length] {
             val <<= 8;
-            val += self.buffer[self.internal_buffer_position+i] as u64;
+            val += *item as u64;
         }
         Ok((val, length))
     }
@@ -283,7 +280,7 @@ impl<R: Read, TSpec> TagIterator<R, TSpec>
         let (tag_id, id_len) = self.peek_tag_id()?;
         let spec_tag_type = <TSpec>::get_tag_data_type(tag_id);
         
-        let (size, size_len) = tools::read_vint(&self.buffer[(self.internal_buffer_position + id_len)..])
+        let (size, size_len) = tools::read_vint(&self.buffer[(self.internal_buffer_position + id_len)..self.buffered_byte_length])
         .or(Err(TagIteratorError::CorruptedFileData(CorruptedFileError::InvalidTagData{tag_id, position: self.current_offset() })))?
         .ok_or(TagIteratorError::UnexpectedEOF { tag_start: self.current_offset(), tag_id: Some(tag_id), tag_size: None, partial_data: None })?;
     
